@@ -26,8 +26,8 @@ type c19Spec struct {
 	Tree    string `json:"tree"`   // nested | tiny600 | mixed-big | small
 	Format  string `json:"format"` // zip | czip | tar
 	Workers int    `json:"workers"`
-	Mode    string `json:"mode"` // plain | resume
-	HoldA   int    `json:"holdA"` // resume mode: entry index whose data is held back
+	Mode    string `json:"mode"`   // plain | resume
+	HoldA   int    `json:"holdA"`  // resume mode: entry index whose data is held back
 	SnapAt  int    `json:"snapAt"` // resume mode: snapshot at the j-th OnEntryDone
 }
 
@@ -387,16 +387,16 @@ func c19Compare(res *lib.Result, desc, out string, tree *lib.Build, er *archiver
 
 func init() {
 	lib.Register(&lib.Property{
-		ID:    "C19",
-		Level: "exploration",
-		Rule: "trees (nested + empty dirs, empty files, symlinks to files / dirs / dangling, 600 tiny files, 1-3 MiB files among tiny ones) archived with archiver.CompressZip, containerarchiver.CompressZip and CompressTar, extracted into an empty directory with worker counts -1 and 1..16; oracle: independent tree comparison and ExtractResult counts against the archive's entry list read with the standard library. Resumable zip extraction: inside OnEntryDone for the j-th completion the monitor snapshots first the resume file then the destination tree (= what a crash leaves), while a harness io.ReaderAt holds back the data of an earlier entry until the snapshot is taken (forced out-of-order completion, bounded wait; with one worker this degenerates to in-order); a second extraction runs on the snapshot with the copied resume file and must end with the complete tree and counts equal to the entries not skipped. Race-detector pass with 2/4/16 workers; every report with a frame in wharf/archiver is a violation. distinct = distinct (tree, format, workers | snapshot point, held entry)",
-		Assumptions: []string{"a crash is modelled as a snapshot of resume file then tree (file contents only; no kernel-level reordering)", "tar extraction is sequential by construction"},
-		Flavors: func(tier string) []string { return []string{"plain", "race"} },
-		Cases:   c19Cases,
-		Run:     c19Run,
-		Batch:   6,
-		CaseBudget: 300 * 1e9,
+		ID:           "C19",
+		Level:        "exploration",
+		Rule:         "trees (nested + empty dirs, empty files, symlinks to files / dirs / dangling, 600 tiny files, 1-3 MiB files among tiny ones) archived with archiver.CompressZip, containerarchiver.CompressZip and CompressTar, extracted into an empty directory with worker counts -1 and 1..16; oracle: independent tree comparison and ExtractResult counts against the archive's entry list read with the standard library. Resumable zip extraction: inside OnEntryDone for the j-th completion the monitor snapshots first the resume file then the destination tree (= what a crash leaves), while a harness io.ReaderAt holds back the data of an earlier entry until the snapshot is taken (forced out-of-order completion, bounded wait; with one worker this degenerates to in-order); a second extraction runs on the snapshot with the copied resume file and must end with the complete tree and counts equal to the entries not skipped. Race-detector pass with 2/4/16 workers; every report with a frame in wharf/archiver is a violation. distinct = distinct (tree, format, workers | snapshot point, held entry)",
+		Assumptions:  []string{"a crash is modelled as a snapshot of resume file then tree (file contents only; no kernel-level reordering)", "tar extraction is sequential by construction"},
+		Flavors:      func(tier string) []string { return []string{"plain", "race"} },
+		Cases:        c19Cases,
+		Run:          c19Run,
+		Batch:        6,
+		CaseBudget:   300 * 1e9,
 		RaceDeciding: true,
-		RaceFilter: func(rep string) bool { return strings.Contains(rep, "wharf/archiver") },
+		RaceFilter:   func(rep string) bool { return strings.Contains(rep, "wharf/archiver") },
 	})
 }
